@@ -140,8 +140,9 @@ impl ConditionallySelectable for Fq {
         for i in 0..4 {
             out[i] = u64::conditional_select(&a_limbs[i], &b_limbs[i], choice);
         }
+        // The limbs selected above are already in Montgomery form.
         let bigint = BigInt::new(out);
-        Self(ArkworksFq::new(bigint))
+        Self(ArkworksFq::new_unchecked(bigint))
     }
 }
 
